@@ -133,7 +133,7 @@ func rootEvents() []string {
 		}
 	}
 	for n := range scenariosB {
-		if n != "B:free" {
+		if !strings.HasPrefix(n, "B:free") {
 			b = append(b, n)
 		}
 	}
@@ -235,7 +235,11 @@ func toFree(hist []string) []string {
 		out = append(out, sc.Prefix...)
 		return append(out, hist[1:]...)
 	}
-	return append([]string{"B:free" + suffix}, hist[1:]...)
+	free := "B:free"
+	if scenariosB[base] != nil && scenariosB[base].Prefix == "tie" {
+		free = "B:free-tie"
+	}
+	return append([]string{free + suffix}, hist[1:]...)
 }
 
 func minimise(o core.Outcome, hist []string) core.Outcome {
@@ -466,7 +470,7 @@ func main() {
 		}
 	}
 	for n, s := range scenariosB {
-		if n == "B:free" {
+		if strings.HasPrefix(n, "B:free") {
 			continue
 		}
 		sc[n] = s.describe()
